@@ -58,7 +58,7 @@ func TestVerifConsoleDriver(t *testing.T) {
 			term := NewTerminal(verifRW{bytes.NewReader(raw), io.Discard}, "")
 			for {
 				lines, err := term.ReadLine()
-				if err != nil {
+				if err != nil && err != ErrPasteIndicator { // as runTerminal does
 					break
 				}
 				parts := make([]string, len(lines))
